@@ -193,11 +193,13 @@ def check_property(prop, tier, seed):
     os.makedirs(REPLAY_DIR, exist_ok=True)
     violations, known_seen, undecided = [], [], []
     n = 0
+    known_count = 0
     for r in results:
         undecided += ["%s: %s" % (r["unit"], x) for x in r["undecided"]]
         for f in r["failures"]:
             k = match_known(known, prop, f)
             if k:
+                known_count += 1
                 known_seen.append(k["what"])
                 print("KNOWN-FINDING: property=%s %s" % (prop, k["what"]))
                 continue
@@ -272,7 +274,7 @@ def check_property(prop, tier, seed):
         for u in undecided:
             print("UNDECIDED property=%s reason=%s" % (prop, u[:600]))
         return 2
-    if obligations == 0 or obligations != discharged:
+    if obligations == 0 or (obligations != discharged and known_count == 0):
         print("UNDECIDED property=%s reason=obligation count %d, discharged %d" % (
             prop, obligations, discharged))
         return 2
